@@ -143,127 +143,10 @@ theorem importDeps_ok (ds : List Str) {st : EncSt} (hs : Sync st) (hi : InstInv 
       have := ih (st := { st2 with instances := amInsert st2.instances d idx }) f12.sync hi2
       exact ⟨(f12.instances _).trans this.1, this.2⟩
 
-theorem importItem_ok (cn : Str → Str) {st : EncSt} (hs : Sync st) (hi : InstInv st) (name : Str) (ty : ItemTy)
-    (hty : ty.kind = .instance → ty.iface = none ∨ ty.iface = some name) :
-    ImpFrame st (importItem cn st name ty).1 ∧ InstInv (importItem cn st name ty).1 ∧
-      Has (G (importItem cn st name ty).1) ty.kind (importItem cn st name ty).2 (.imp name) := by
-  unfold importItem
-  -- the reuse test
-  cases hre : (if ty.kind = .instance then
-      match ty.iface with
-      | some id => amGet st.instances id
-      | none => none
-    else none : Option Nat) with
-  | some idx =>
-    simp only
-    have hk : ty.kind = .instance := by
-      by_cases hk : ty.kind = .instance
-      · exact hk
-      · simp [hk] at hre
-    simp only [hk, ↓reduceIte] at hre
-    cases hif : ty.iface with
-    | none => simp [hif] at hre
-    | some id =>
-      simp only [hif] at hre
-      have hid : id = name := by
-        rcases hty hk with h1 | h1
-        · simp [hif] at h1
-        · simpa [hif] using h1
-      subst hid
-      refine ⟨ImpFrame.refl hs, hi, ?_⟩
-      rw [hk]
-      exact hi id idx hre
-  | none =>
-    simp only
-    -- dependencies first
-    have hd : ImpFrame st (if ty.kind = .instance then importDeps (ty.deps.map cn) st else st) ∧
-        InstInv (if ty.kind = .instance then importDeps (ty.deps.map cn) st else st) := by
-      split
-      · exact importDeps_ok (ty.deps.map cn) hs hi
-      · exact ⟨ImpFrame.refl hs, hi⟩
-    generalize (if ty.kind = .instance then importDeps (ty.deps.map cn) st else st) = st0 at hd
-    obtain ⟨f0, hi0⟩ := hd
-    have f1 := ImpFrame.typeDef f0.sync
-    have f2 := ImpFrame.import f1.sync name ty.kind
-    have hhas := emit_has f1.sync (.import name ty.kind) ty.kind rfl
-    have f012 := f0.trans (f1.trans f2)
-    have hhas' : Has (G ((st0.emit .typeDef).1.emit (.import name ty.kind)).1) ty.kind
-        ((st0.emit .typeDef).1.emit (.import name ty.kind)).2 (.imp name) := by simpa [newTerm] using hhas
-    have hinst0 : ((st0.emit .typeDef).1.emit (.import name ty.kind)).1.instances = st0.instances := by
-      simp [emit_instances]
-    have hi2 : InstInv ((st0.emit .typeDef).1.emit (.import name ty.kind)).1 :=
-      hi0.ext ((f1.trans f2).ext) hinst0
-    by_cases hk : ty.kind = .instance
-    · simp only [hk, ↓reduceIte]
-      cases hif : ty.iface with
-      | none =>
-        simp only
-        refine ⟨?_, ?_, ?_⟩
-        · simpa [hk] using f012
-        · simpa [hk] using hi2
-        · simpa [hk] using hhas'
-      | some id =>
-        simp only
-        have hid : id = name := by
-          rcases hty hk with h1 | h1
-          · simp [hif] at h1
-          · simpa [hif] using h1
-        subst hid
-        refine ⟨?_, ?_, ?_⟩
-        · have := f012.instances (amInsert ((st0.emit .typeDef).1.emit (.import id ty.kind)).1.instances id
-            ((st0.emit .typeDef).1.emit (.import id ty.kind)).2)
-          simpa [hk] using this
-        · intro id' i hq'
-          simp only [amGet_amInsert'] at hq'
-          rw [G_instances]
-          by_cases hd : id = id'
-          · subst hd
-            simp only [↓reduceIte, Option.some.injEq] at hq'
-            subst hq'
-            simpa [hk] using hhas'
-          · simp only [hd, ↓reduceIte] at hq'
-            have := hi2 id' i (by simpa [hk] using hq')
-            simpa [hk] using this
-        · rw [G_instances]
-          simpa [hk] using hhas'
-    · simp only [hk, ↓reduceIte]
-      exact ⟨f012, hi2, hhas'⟩
-
 /-- `encoded` after the import loop: every entry is realised by the import of its name and
     carries the kind of its list entry -/
 def EncOk (w : WState) (l : List (Str × ItemTy)) (enc : List (Str × (Kind × Nat))) : Prop :=
   ∀ nm k idx, amGet enc nm = some (k, idx) → Has w k idx (.imp nm) ∧ ∃ ty, (nm, ty) ∈ l ∧ k = ty.kind
-
-theorem importAll_ok (cn : Str → Str) (l : List (Str × ItemTy)) {st : EncSt} {enc : List (Str × (Kind × Nat))} (l0 : List (Str × ItemTy))
-    (hs : Sync st) (hi : InstInv st)
-    (hl : ∀ e ∈ l, e.2.kind = .instance → e.2.iface = none ∨ e.2.iface = some e.1)
-    (henc : EncOk (G st) l0 enc) :
-    ImpFrame st (importAll cn l st enc).1 ∧ EncOk (G (importAll cn l st enc).1) (l0 ++ l) (importAll cn l st enc).2 := by
-  induction l generalizing st enc l0 with
-  | nil =>
-    simp only [importAll, List.append_nil]
-    exact ⟨ImpFrame.refl hs, henc⟩
-  | cons e l ih =>
-    obtain ⟨name, ty⟩ := e
-    simp only [importAll]
-    have h1 := importItem_ok cn hs hi name ty (hl (name, ty) (List.mem_cons_self ..))
-    obtain ⟨f1, hi1, hhas⟩ := h1
-    have henc1 : EncOk (G (importItem cn st name ty).1) (l0 ++ [(name, ty)])
-        (amInsert enc name (ty.kind, (importItem cn st name ty).2)) := by
-      intro nm k idx hq
-      rw [amGet_amInsert'] at hq
-      by_cases hn : name = nm
-      · subst hn
-        simp only [↓reduceIte, Option.some.injEq, Prod.mk.injEq] at hq
-        obtain ⟨hk, hidx⟩ := hq
-        subst hk hidx
-        exact ⟨hhas, ty, by simp, rfl⟩
-      · simp only [hn, ↓reduceIte] at hq
-        obtain ⟨h2, ty', hm, hk⟩ := henc nm k idx hq
-        exact ⟨f1.ext _ _ _ h2, ty', by simp [hm], hk⟩
-    have := ih (l0 ++ [(name, ty)]) f1.sync hi1 (fun e he => hl e (List.mem_cons_of_mem _ he)) henc1
-    refine ⟨f1.trans this.1, ?_⟩
-    simpa [List.append_assoc] using this.2
 
 end Wac
 
@@ -285,11 +168,14 @@ theorem importItem_implicit (cn : Str → Str) (st : EncSt) (name : Str) (ty : I
   · simp only [hk, ↓reduceIte]
     cases hif : ty.iface with
     | none => simp [emit_implicit, importDeps_implicit]
-    | some id =>
+    | some i =>
       simp only
-      cases hq : amGet st.instances id with
-      | some idx => rfl
-      | none => simp [emit_implicit, importDeps_implicit]
+      by_cases hp : providesIface name i = true
+      · simp only [hp, ↓reduceIte]
+        cases hq : amGet st.instances i with
+        | some idx => rfl
+        | none => simp [emit_implicit, importDeps_implicit]
+      · simp [hp, emit_implicit, importDeps_implicit]
   · simp [hk, emit_implicit]
 
 theorem importAll_frame (cn : Str → Str) (l : List (Str × ItemTy)) {st : EncSt} {enc : List (Str × (Kind × Nat))} :
